@@ -136,6 +136,9 @@ class KeySet:
         for key in self.keys:
             if key.kid == kid:
                 return key
+        if kid is not None and not isinstance(kid, str):
+            # do not format an attacker-controlled value of arbitrary type and depth
+            raise InvalidKeyIdError('No key for the given "kid": it is not a string')
         raise InvalidKeyIdError(f'No key for kid: "{kid}"')
 
     def pick_random_key(self, algorithm: str) -> t.Optional[Key]:
